@@ -1276,11 +1276,11 @@ fn part_variants(ctx: &mut Ctx, n: u64) {
 
 pub fn run(ctx: &mut Ctx) {
     let per_shard = |ctx: &Ctx, q: u64, t: u64| (ctx.budget(q, t) / ctx.nshards as u64).max(1);
-    let n1 = per_shard(ctx, 12_000, 600_000);
-    let n2 = per_shard(ctx, 8_000, 400_000);
-    let n3 = per_shard(ctx, 24_000, 1_200_000);
-    let n4 = per_shard(ctx, 1_600, 48_000);
-    let n5 = per_shard(ctx, 4_000, 200_000);
+    let n1 = per_shard(ctx, 72_000, 600_000);
+    let n2 = per_shard(ctx, 48_000, 400_000);
+    let n3 = per_shard(ctx, 144_000, 1_200_000);
+    let n4 = per_shard(ctx, 9_600, 48_000);
+    let n5 = per_shard(ctx, 24_000, 200_000);
     part_programmed(ctx, n1);
     part_cw(ctx, n2);
     part_two_point(ctx, n5);
